@@ -5,6 +5,7 @@ import (
 	"strings"
 
 	"verif/harness/internal/core"
+	"verif/harness/internal/golib"
 	"verif/harness/internal/msggen"
 )
 
@@ -172,6 +173,11 @@ func bigCases(r *core.Rand, tier string, emit func([]string)) {
 func itoa(n int) string { return strconv.Itoa(n) }
 
 func (P) Gen(r *core.Rand, tier string, emit func([]string)) {
+	// the HTTP/1 reader of the model against net/http (wires of msggen and of golib's own serialiser)
+	hr := r.Fork()
+	for i, k := 0, map[bool]int{true: 300, false: 30}[tier == "thorough"]; i < k; i++ {
+		emit(golib.GenH1Read(hr, 4000))
+	}
 	bigCases(r.Fork(), tier, emit)
 	badCases(r.Fork(), emit)
 	n := 350
@@ -209,6 +215,7 @@ func (P) Gen(r *core.Rand, tier string, emit func([]string)) {
 		}
 		ops = append(ops, strings.Join(append([]string{"snap", mode, skip, cts}, a.Tokens()...), " "))
 		ops = append(ops, "sections")
+		ops = append(ops, "h1.resnap") // the snapshot bytes through the real and the modelled reader
 		ops = append(ops, "decode "+InflatedTok(a))
 		// twins on the same message and on a bigger one
 		ops = append(ops, twinOp(r, a, mode))
